@@ -97,20 +97,36 @@ Definition is_leaf (t : tree) : bool := match t with Leaf _ _ => true | _ => fal
 Definition plen (l : option str) : str :=
   match l with None => [] | Some x => ":" :: x end.
 
+(* getNewick(escape_name=True): a name containing a bracket, quote, parenthesis, comma, colon,
+   semicolon or underscore is wrapped in single quotes (inner single quotes doubled, unless the name
+   already starts and ends with one), otherwise its blanks are turned into underscores *)
+Definition must_quote (c : ascii) : bool :=
+  existsb (Ascii.eqb c) ["["; "]"; "'"; """"; "("; ")"; ","; ":"; ";"; "_"].
+Fixpoint double_quotes (s : str) : str :=
+  match s with
+  | [] => []
+  | c :: tl => if Ascii.eqb c "'" then "'" :: "'" :: double_quotes tl else c :: double_quotes tl
+  end.
+Definition print_name (n : str) : str :=
+  if Ascii.eqb (hd " " n) "'" && Ascii.eqb (last n " ") "'" then n
+  else if existsb must_quote n then "'" :: double_quotes n ++ ["'"]
+  else replace_char " " "_" n.
+
 Fixpoint print_node (t : tree) : str :=
   match t with
-  | Leaf n l => n ++ plen l
+  | Leaf n l => print_name n ++ plen l
   | Node cs l => "(" :: join [","] (map print_node cs) ++ ")" :: plen l
   end.
 
 Definition print (t : tree) : str := print_node t ++ [";"].
 
 (* characters that are printed verbatim, survive the normalisation in grf, the
-   element scanner and the tokeniser: printable, not blank, not a parenthesis, comma, colon, semicolon, quote, bracket, underscore or slash *)
+   element scanner and the tokeniser: printable, not blank, not a parenthesis, comma, colon, semicolon, quote, bracket or slash
+   (an underscore is allowed: the printer then quotes the name) *)
 Definition clean_char (c : ascii) : bool :=
   let n := nat_of_ascii c in
   (33 <=? n) && (n <=? 126) &&
-  negb (existsb (Ascii.eqb c) ["("; ")"; ","; ":"; ";"; "'"; """"; "["; "]"; "_"; "/"]).
+  negb (existsb (Ascii.eqb c) ["("; ")"; ","; ":"; ";"; "'"; """"; "["; "]"; "/"]).
 Definition clean (s : str) : bool := negb (match s with [] => true | _ => false end) && forallb clean_char s.
 
 Definition clean_len (l : option str) : bool := match l with None => true | Some x => clean x end.
@@ -139,17 +155,43 @@ Definition unmodelled_char (c : ascii) : bool :=
 Definition flush (text : option str) : list token :=
   match text with None => [] | Some t => [TLabel (strip_ws t)] end.
 
-Fixpoint tokenise (text : option str) (s : str) : option (list token) :=
-  match s with
-  | [] => Some (flush text ++ [TEOT])
-  | c :: tl =>
-    if is_punct c then option_map (fun r => flush text ++ TPunct c :: r) (tokenise None tl)
-    else if is_newline c then option_map (fun r => flush text ++ r) (tokenise None tl)
-    else if unmodelled_char c then None
-    else if is_blank c then
-      tokenise (match text with None => None | Some t => Some (t ++ [c]) end) tl
-    else tokenise (Some (match text with None => [c] | Some t => t ++ [c] end)) tl
+(* [quoted = Some acc]: inside a single-quoted label whose text so far is acc *)
+Fixpoint tokenise_q (quoted : option str) (text : option str) (s : str) {struct s} : option (list token) :=
+  match quoted with
+  | Some acc =>
+    match s with
+    | [] => None                                        (* text ended inside quoted label *)
+    | c :: tl =>
+      if Ascii.eqb c "'" then
+        match tl with
+        | c2 :: tl2 =>
+          if Ascii.eqb c2 "'" then tokenise_q (Some (acc ++ ["'"])) None tl2      (* doubled quote inside: one quote character *)
+          else option_map (cons (TLabel acc)) (tokenise_q None None tl)
+        | [] => option_map (cons (TLabel acc)) (tokenise_q None None tl)
+        end
+      else if is_newline c then None                    (* line ended inside quoted label *)
+      else if (nat_of_ascii c <? 32) && negb (is_blank c) || (126 <? nat_of_ascii c) then None
+      else tokenise_q (Some (acc ++ [c])) None tl
+    end
+  | None =>
+    match s with
+    | [] => Some (flush text ++ [TEOT])
+    | c :: tl =>
+      if is_punct c then option_map (fun r => flush text ++ TPunct c :: r) (tokenise_q None None tl)
+      else if is_newline c then option_map (fun r => flush text ++ r) (tokenise_q None None tl)
+      else if Ascii.eqb c "'" then
+        match text, tl with
+        | None, c2 :: _ => if Ascii.eqb c2 "'" then None else tokenise_q (Some []) None tl
+        | _, _ => None                                  (* quote inside an unquoted label, empty quoted label: not modelled *)
+        end
+      else if unmodelled_char c then None
+      else if is_blank c then
+        tokenise_q None (match text with None => None | Some t => Some (t ++ [c]) end) tl
+      else tokenise_q None (Some (match text with None => [c] | Some t => t ++ [c] end)) tl
+    end
   end.
+
+Definition tokenise (text : option str) (s : str) : option (list token) := tokenise_q None text s.
 
 (* ---------- the parser (newick.parse_string with TreeBuilder.createEdge) ---------- *)
 
